@@ -231,7 +231,7 @@ class ImplSession:
         return [enc_dstate(d), d.schedule.is_complete(), d.schedule.makespan(),
                 d.schedule.num_scheduled_operations, subs,
                 [enc_obs(o, d) for o in self.objs] if self.env is None else [],
-                deep_digest(self)]
+                deep_digest(self), list(self.__dict__.get("count_problems", []))]
 
     def query(self, q, arg):
         d = self.dispatcher
@@ -345,6 +345,32 @@ class ImplSession:
                 foreign = self.__dict__.setdefault("foreign", [])
                 foreign.extend(o for o in d.subscribers if not any(o is b for b in before))
                 return []
+            elif tag == 13:
+                # library feature observers (two plain ones and a CompositeFeatureObserver over them) attached outside
+                # the model world, each with a counter around update / reset: every accepted dispatch and every
+                # dispatcher reset must reach each of them exactly once
+                from job_shop_lib.dispatching.feature_observers import (CompositeFeatureObserver, DurationObserver,
+                                                                        IsReadyObserver)
+                before = list(d.subscribers)
+                a, b = IsReadyObserver(d), DurationObserver(d)
+                CompositeFeatureObserver(d, feature_observers=[a, b])
+                foreign = self.__dict__.setdefault("foreign", [])
+                counted = self.__dict__.setdefault("counted", [])
+                for o in d.subscribers:
+                    if not any(o is x for x in before):
+                        foreign.append(o)
+                        cnt = {"name": type(o).__name__, "update": 0, "reset": 0}
+                        counted.append(cnt)
+
+                        def upd(sop, _u=o.update, _c=cnt):
+                            _c["update"] += 1
+                            return _u(sop)
+
+                        def rst(_r=o.reset, _c=cnt):
+                            _c["reset"] += 1
+                            return _r()
+                        o.update, o.reset = upd, rst
+                return []
             elif tag == 10:
                 # a constructor call that is rejected (ValidationError): a feature observer asked for a feature
                 # type outside its supported_feature_types. It must leave no trace on the dispatcher.
@@ -365,7 +391,16 @@ class ImplSession:
                 out = self.notified()
             else:
                 raise ValueError(tag)
+            if tag in (0, 2, 12) and self.__dict__.get("counted"):
+                which = "reset" if tag == 2 else "update"
+                for c in self.counted:
+                    if c[which] != 1:
+                        self.__dict__.setdefault("count_problems", []).append(
+                            [c["name"], which, c[which]])
+                    c["update"] = c["reset"] = 0
         except Exception as e:  # pylint: disable=broad-except
+            for c in self.__dict__.get("counted", []):
+                c["update"] = c["reset"] = 0
             self.exc_calls = list(self.calls)
             return [common.exn_code(e)] + ([["notified-despite-exception"]] if self.calls and tag in (0, 8) else [])
         return [0, common.norm(out)]
@@ -521,7 +556,7 @@ def run_session(spec, filters, events, env=None):
 def model_case(spec, filters, events):
     # event 11 (a library observer attached outside the model world: it must not influence the dispatcher) is
     # a no-op for the model
-    return (1, [spec, filters, [[9, 0] if ev[0] == 11 else ev for ev in expand_events(events)]])
+    return (1, [spec, filters, [[9, 0] if ev[0] in (11, 13) else ev for ev in expand_events(events)]])
 
 
 def expand_events(events):
